@@ -80,10 +80,15 @@ pub fn replay(cases: &[Value], out: &mut Out) {
 	rt.block_on(async {
 		let rig = Rig::new(RigCfg::default());
 		let small = Rig::new(RigCfg { max_req: 256, ..Default::default() });
+		let stack = stack_rig();
 		for (i, c) in cases.iter().enumerate() {
 			for k in 0..k_concretisations() {
 				let mut rng = rng_for(i, k);
 				let mut probs: Vec<(String, Value)> = vec![];
+				if c.get("cfg").is_some() {
+					stack_case(&stack, i, k, c, &mut rng, out).await;
+					continue;
+				}
 				if c.get("allowed").is_some() {
 					// ---- gate case
 					let m = c["case"]["method"].as_str().unwrap();
@@ -205,4 +210,233 @@ pub fn replay(cases: &[Value], out: &mut Out) {
 			}
 		}
 	});
+}
+
+// ------------------------------------------------------------------------------------------------------------------
+// HttpStack.tla: the shipped HTTP layers (ProxyGetRequest, HostFilter) in front of the service, in every configuration.
+
+const STACK_PATHS: [(&str, &str, &str); 10] = [
+	("ok", "/health", "health"),
+	("nullres", "/null", "nullres"),
+	("strres", "/str", "strres"),
+	("fail", "/fail", "fail"),
+	("failData", "/fail_data", "fail_data"),
+	("missing", "/missing", "no_such_method"),
+	("sub", "/sub", "sub"),
+	("panic", "/panic", "panic"),
+	("tooBig", "/too_big", "too_big"),
+	("errLooksOk", "/err_looks_ok", "err_looks_ok"),
+];
+const STR_RES: &str = "a \"quoted\" \u{e9} string, with {\"result\": 1}";
+
+fn stack_rig() -> Rig {
+	use jsonrpsee_core::server::RpcModule;
+	use jsonrpsee_types::ErrorObjectOwned;
+	let log: Log = Default::default();
+	let mut m = RpcModule::new(log.clone());
+	fn note(log: &Log, h: &str, p: &jsonrpsee_types::Params<'_>) {
+		log.lock().push(json!({"h": h, "params": p.parse::<Value>().unwrap_or(json!("undecodable"))}));
+	}
+	m.register_method("echo", |p, log, _| {
+		note(log, "echo", &p);
+		json!({"echo": p.parse::<Value>().unwrap_or(Value::Null)})
+	})
+	.unwrap();
+	// (a result with a member called "error", an error with a member called "result": the unwrapping must look at the top level only)
+	m.register_method("health", |p, log, _| {
+		note(log, "health", &p);
+		json!({"up": true, "peers": [1, 2, 3], "error": null})
+	})
+	.unwrap();
+	m.register_method("nullres", |p, log, _| {
+		note(log, "nullres", &p);
+		Value::Null
+	})
+	.unwrap();
+	m.register_async_method("strres", |p, log, _| async move {
+		note(&log, "strres", &p);
+		STR_RES.to_string()
+	})
+	.unwrap();
+	m.register_method("fail", |p, log, _| -> Result<Value, ErrorObjectOwned> {
+		note(log, "fail", &p);
+		Err(ErrorObjectOwned::owned(7, "app error", None::<()>))
+	})
+	.unwrap();
+	m.register_method("fail_data", |p, log, _| -> Result<Value, ErrorObjectOwned> {
+		note(log, "fail_data", &p);
+		Err(ErrorObjectOwned::owned(9, "with data", Some(json!({"d": [1, 2]}))))
+	})
+	.unwrap();
+	m.register_method("err_looks_ok", |p, log, _| -> Result<Value, ErrorObjectOwned> {
+		note(log, "err_looks_ok", &p);
+		Err(ErrorObjectOwned::owned(8, "looks ok", Some(json!({"result": 1}))))
+	})
+	.unwrap();
+	m.register_blocking_method("panic", |p, log, _| -> Result<Value, ErrorObjectOwned> {
+		note(&log, "panic", &p);
+		panic!("handler panics on purpose");
+	})
+	.unwrap();
+	m.register_method("too_big", |p, log, _| {
+		note(log, "too_big", &p);
+		"x".repeat(5000)
+	})
+	.unwrap();
+	m.register_subscription("sub", "notif", "unsub", |p, pending, log, _| async move {
+		note(&log, "sub", &p);
+		let _ = pending.accept().await;
+	})
+	.unwrap();
+	Rig::with_methods(RigCfg { max_resp: 2048, ..Default::default() }, log, m.into())
+}
+
+async fn stack_case(rig: &Rig, i: usize, k: usize, c: &Value, rng: &mut rand::rngs::StdRng, out: &mut Out) {
+	use jsonrpsee_server::middleware::http::{HostFilterLayer, ProxyGetRequestLayer};
+	use tower::Layer;
+	let r = &c["req"];
+	let pick = |rng: &mut rand::rngs::StdRng, xs: &[&str]| xs[rng.random_range(0..xs.len())].to_string();
+	let pcls = r["path"].as_str().unwrap();
+	let uri = match pcls {
+		"okQuery" => pick(rng, &["/health?verbose=1", "/health?", "/health?x=%2Fa&y=[1]", "/health?/other"]),
+		"okSlash" => pick(rng, &["/health/", "//health", "/health/.", "/health%20"]),
+		"okUpper" => pick(rng, &["/HEALTH", "/Health", "/healtH"]),
+		"unreg" => pick(rng, &["/other", "/healthz", "/health/x", "/healt", "/echo"]),
+		"root" => pick(rng, &["/", "/?health"]),
+		p => STACK_PATHS.iter().find(|x| x.0 == p).expect("path class").1.to_string(),
+	};
+	let mut hs: Vec<(String, String)> = vec![];
+	match r["host"].as_str().unwrap() {
+		"allowed" => hs.push(("host".into(), pick(rng, &["rpc.test:8080", "rpc.test"]))),
+		"denied" => hs.push(("host".into(), pick(rng, &["evil.test", "rpc.test.evil.test", "rpc.test:9999", "xrpc.test:8080"]))),
+		_ => {}
+	}
+	match r["ct"].as_str().unwrap() {
+		"json" => hs.push(("content-type".into(), "application/json".into())),
+		"text" => hs.push(("content-type".into(), pick(rng, &["text/plain", "application/xml"]))),
+		_ => {}
+	}
+	let frames: Vec<Vec<u8>> = match r["body"].as_str().unwrap() {
+		"call" => vec![CALL.as_bytes().to_vec()],
+		"garbage" => vec![b"hello world, not json".to_vec()],
+		_ => vec![],
+	};
+	let method = r["method"].as_str().unwrap();
+	let proxy = ProxyGetRequestLayer::new(STACK_PATHS.iter().map(|(_, p, m)| (*p, *m))).expect("paths start with /");
+	let filter = HostFilterLayer::new(["rpc.test:8080", "rpc.test"]).expect("allow-list");
+	let svc = rig.svc(rig.http_stop.0.clone());
+	let layers: Vec<&str> = c["cfg"].as_array().unwrap().iter().map(|l| l.as_str().unwrap()).collect();
+	rig.take_log();
+	let prev = std::panic::take_hook();
+	std::panic::set_hook(Box::new(|_| {}));
+	let reply = match layers.as_slice() {
+		[] => {
+			let mut s = svc;
+			http_call(&mut s, method, &uri, &hs, frames).await
+		}
+		["proxy"] => {
+			let mut s = proxy.layer(svc);
+			http_call(&mut s, method, &uri, &hs, frames).await
+		}
+		["filter"] => {
+			let mut s = filter.layer(svc);
+			http_call(&mut s, method, &uri, &hs, frames).await
+		}
+		["proxy", "filter"] => {
+			let mut s = proxy.layer(filter.layer(svc));
+			http_call(&mut s, method, &uri, &hs, frames).await
+		}
+		["filter", "proxy"] => {
+			let mut s = filter.layer(proxy.layer(svc));
+			http_call(&mut s, method, &uri, &hs, frames).await
+		}
+		o => panic!("HARNESS layers {o:?}"),
+	};
+	std::panic::set_hook(prev);
+	let log = rig.take_log();
+	let ans = &c["ans"];
+	let (ek, estatus, ecode) = (ans["k"].as_str().unwrap(), ans["status"].as_u64().unwrap() as u16, ans["code"].as_i64().unwrap());
+	let body = reply.json();
+	let mut probs: Vec<(String, Value)> = vec![];
+	let ctx = format!("{}:{}", if layers.is_empty() { "bare".to_string() } else { layers.join(">") }, if c["proxied"] == json!(true) { "proxied" } else { "passed" });
+	let mut bad = |what: String| probs.push((format!("stack:{ctx}:{what}"), Value::Null));
+	if reply.status != estatus {
+		bad(format!("status-exp-{estatus}-got-{}", reply.status));
+	} else {
+		let is_json_ct = reply.content_type.as_deref().map(|t| t.to_ascii_lowercase().starts_with("application/json")).unwrap_or(false);
+		match ek {
+			"text" => {
+				if body.as_ref().map(|b| b.get("result").is_some()).unwrap_or(false) {
+					bad("refusal-carries-a-result".into());
+				}
+			}
+			"envResult" | "envError" => match &body {
+				Some(b) if b.get("jsonrpc") == Some(&json!("2.0")) => {
+					if ek == "envResult" && (b.get("result").is_none() || b.get("error").is_some()) {
+						bad("envelope-exp-result".into());
+					}
+					if ek == "envError" && b["error"]["code"].as_i64() != Some(ecode) {
+						bad(format!("envelope-exp-code{ecode}-got-{}", b["error"]["code"]));
+					}
+				}
+				_ => bad("answer-is-no-jsonrpc-envelope".into()),
+			},
+			"bareResult" => {
+				let mapped = STACK_PATHS.iter().find(|x| x.0 == if pcls == "okQuery" { "ok" } else { pcls }).expect("mapped").2;
+				let want = match mapped {
+					"health" => json!({"up": true, "peers": [1, 2, 3], "error": null}),
+					"nullres" => Value::Null,
+					_ => json!(STR_RES),
+				};
+				if body.as_ref() != Some(&want) {
+					bad(format!("bare-result-of-{mapped}-differs"));
+				}
+				if !is_json_ct {
+					bad("bare-result-content-type".into());
+				}
+			}
+			"bareError" => match &body {
+				Some(b) if b.is_object() && b.get("jsonrpc").is_none() && b.get("id").is_none() => {
+					if b["code"].as_i64() != Some(ecode) {
+						bad(format!("bare-error-exp-code{ecode}-got-{}", b["code"]));
+					}
+					let want_data = match ecode {
+						9 => Some(json!({"d": [1, 2]})),
+						8 => Some(json!({"result": 1})),
+						_ => None,
+					};
+					if let Some(w) = want_data {
+						if b.get("data") != Some(&w) {
+							bad(format!("bare-error-code{ecode}-data-differs"));
+						}
+					}
+					if !b["message"].is_string() {
+						bad("bare-error-without-message".into());
+					}
+				}
+				_ => bad("bare-error-is-no-bare-error-object".into()),
+			},
+			o => panic!("HARNESS ans.k {o}"),
+		}
+	}
+	// the handlers that ran
+	let want_ran: Vec<Value> = c["ran"]
+		.as_array()
+		.unwrap()
+		.iter()
+		.map(|x| {
+			let m = x["m"].as_str().unwrap();
+			if m == "echo" {
+				json!({"h": "echo", "params": ["a b", {"k": [1, 2]}]})
+			} else {
+				json!({"h": STACK_PATHS.iter().find(|p| p.0 == m).expect("ran.m").2, "params": null})
+			}
+		})
+		.collect();
+	if log != want_ran {
+		let refused = matches!(estatus, 400 | 403 | 405 | 415);
+		bad(if refused && !log.is_empty() { "handler-ran-for-refused-request".to_string() } else { format!("handlers-exp-{}-got-{}", want_ran.len(), log.len()) });
+	}
+	let d = json!({"case": c, "uri": uri, "headers": hs, "status": reply.status, "content_type": reply.content_type, "body": String::from_utf8_lossy(&reply.body), "log": log});
+	out.problems(i, k, probs.into_iter().map(|(k2, _)| (k2, d.clone())).collect(), Value::Null);
 }
